@@ -154,6 +154,10 @@ def raw_cases():
             yield {"raw": True, "sp": sp, "convert": conv, "single_str": True}
     for conv in (True, False):
         yield {"whole": NUMERIC_LOOKING, "convert": conv}
+    # one unbroken run per text, far longer than any line / record limit (every character is written as an escape)
+    runs = ["\u4e2d\u6587\u8868\u683c" * 900, "\U0001f600" * 1500, "\u00e9\u00fc\u00df" * 1300, "\u30ab\u30bf\u30ab\u30ca" * 800, "\u03b1\u03b2" * 1800]
+    for conv in (True, False):
+        yield {"whole": runs, "convert": conv}
 
 
 def raw_recipe(case):
@@ -253,8 +257,8 @@ def check_whole(case, res):
         for k, (w, g) in enumerate(zip(want, rows)):
             where = "explicit_header" if k == 0 else ("footnote_table" if k == len(want) - 1 else "body_cell")
             for a, b in zip(w, g):
-                compare(res, where + "/numeric_looking_whole_text", a, b)
-    res.labels = ["numeric_looking_whole_text", "convert=" + ("on" if conv else "off")]
+                compare(res, where + "/whole_text", a, b)
+    res.labels = ["whole_text_long_run" if len(texts[0]) > 100 else "whole_text_numeric_looking", "convert=" + ("on" if conv else "off")]
     res.nontrivial = True
 
 
